@@ -498,6 +498,26 @@ fn arith_case(r: &mut Runner, rec: &Value) {
     // binary32 arithmetic: Coor32 op Coor32 and Coor32::scale; dot always accumulates in binary64
     let single = el == "c32" && o != "dot";
     let exp: Vec<f64> = rec["res"].as_array().unwrap().iter().map(|v| expected_num(v, single)).collect();
+    if o == "origin" || o == "ones" || o == "nan" {
+        macro_rules! konst {
+            ($T:ident, $name:literal) => {{
+                let got = call!(r, ctx, $name, match o {
+                    "origin" => $T::origin().0.iter().map(|v| *v as f64).collect::<Vec<f64>>(),
+                    "ones" => $T::ones().0.iter().map(|v| *v as f64).collect::<Vec<f64>>(),
+                    _ => $T::nan().0.iter().map(|v| *v as f64).collect::<Vec<f64>>(),
+                });
+                arith_check(r, &ctx, "constructor", &exp, got);
+            }};
+        }
+        match el {
+            "c2" => konst!(Coor2D, "Coor2D::const"),
+            "c3" => konst!(Coor3D, "Coor3D::const"),
+            "c4" => konst!(Coor4D, "Coor4D::const"),
+            "c32" => konst!(Coor32, "Coor32::const"),
+            e => tool_error(format!("unknown constant kind {e}")),
+        }
+        return;
+    }
     if o == "scale" || o == "dot" {
         match el {
             "c2" => {
